@@ -19,6 +19,7 @@ IPChoices2 == {{}, {"10.0.1.1"}, {"10.0.1.1", "10.0.1.2"}}
 IPChoicesB == {{}, {"10.0.1.1"}, {"10.0.1.1", "10.0.2.1"}}
 
 NoChoices == {}
+TunnelChoices == {ChT}
 IPsSim(b) == IF b = B1 THEN {"10.0.1.1", "10.0.1.2"} ELSE {"10.0.2.1"}
 ChP1b == [handle |-> "k8s-pod-network.p1-b", kind |-> "pod", owner |-> "p1"]
 VMChoices == {ChP1, ChV1, ChT}
